@@ -1178,13 +1178,25 @@ class SchemaGenerator(mmgen.Generator):
             if cp.prim not in ("str", "bytearray"):
                 continue
             inherited: Window = self.cp_window.get(cp.base, (None, None))
+            inherited_patterns = list(self.cp_patterns.get(cp.base, []))
+            for extra in list(cp.extra_bases):
+                # several parents: everything they demand holds at once
+                both = _intersect(inherited, self.cp_window.get(extra, (None, None)))
+                union = inherited_patterns + [
+                    f for f in self.cp_patterns.get(extra, []) if f not in inherited_patterns
+                ]
+                if both is None or not self.satisfiable(union, both):
+                    cp.extra_bases.remove(extra)  # contradicting parents: a plain chain
+                    continue
+                inherited, inherited_patterns = both, union
+                self.m.feature("cprim-several-parents-kept")
             window = inherited
             if rng.random() < 0.7:
                 window = self.sub_window(inherited)
                 for body in self.len_invariants("self", window, inherited, guard=False):
                     cp.invariants.append((body, self.description()))
                     self.m.feature("cprim-length")
-            patterns = list(self.cp_patterns.get(cp.base, []))
+            patterns = list(inherited_patterns)
             if cp.prim == "str" and pats and rng.random() < (0.5 if not patterns else 0.12):
                 fn = rng.choice(pats)
                 if fn not in patterns and self.satisfiable(patterns + [fn], window):
